@@ -19,7 +19,7 @@ makes the check search for a concrete failing schedule and, when none is found, 
 """
 import os, re, json
 
-REPO = "/repo"
+REPO = os.environ.get("VERIF_REPO", "/repo")   # VERIF_REPO: development-time mutation slots only (design/mutate.py)
 CORE = ["cachelito-core/src/global_cache.rs", "cachelito-core/src/async_global_cache.rs", "cachelito-core/src/invalidation.rs",
         "cachelito-core/src/stats_registry.rs", "cachelito-core/src/thread_local_cache.rs", "cachelito-core/src/utils.rs",
         "cachelito-core/src/stats.rs", "cachelito-core/src/lib.rs", "cachelito-core/src/cache_entry.rs",
